@@ -230,7 +230,7 @@ impl<'a> Sim<'a> {
 
     /// Run a schedule (choice numbers), then drain FIFO to quiescence.
     /// growth guard: recursive streams fed by calls can grow exponentially
-    fn too_big(&self) -> bool {
+    pub fn too_big(&self) -> bool {
         self.peers.iter().any(|p| p.prev.len() > 150_000 || p.pending.len() > 48 || p.inbox.len() > 48)
     }
 
@@ -303,4 +303,49 @@ pub fn action_from_json(v: &Value) -> Option<Action> {
         "results_with" => Action::ResultsWith(p, m, i),
         _ => return None,
     })
+}
+
+/// Bounded-exhaustive exploration: all maximal schedules of `script` built from the progress
+/// actions (deliver any of the first 3 inbox messages, hand back all / the first / all-but-first
+/// pending results, results together with a particle), without re-deliveries.  `visit` is called
+/// for every run of every schedule (runs shared by schedules with a common prefix are visited
+/// once per prefix re-simulation).  Returns (complete schedules, runs executed, exhausted) --
+/// `exhausted` is false when `max_leaves` stopped the enumeration.
+pub fn explore_all(script: &Script, max_leaves: usize, max_depth: usize, visit: &mut dyn FnMut(&RunRecord) -> bool) -> (usize, usize, bool) {
+    fn progress_actions(sim: &Sim) -> Vec<Action> {
+        sim.enabled().into_iter().filter(|a| !matches!(a, Action::Redeliver(..))).collect()
+    }
+    let mut leaves = 0usize;
+    let mut runs = 0usize;
+    let mut stack: Vec<Vec<Action>> = vec![vec![Action::Kick]];
+    while let Some(prefix) = stack.pop() {
+        if leaves >= max_leaves {
+            return (leaves, runs, false);
+        }
+        // re-simulate the prefix
+        let mut sim = Sim::new(script);
+        let mut ok = true;
+        for a in &prefix {
+            let r = sim.step(a.clone());
+            runs += 1;
+            if !visit(r) {
+                ok = false;
+                break;
+            }
+        }
+        if !ok {
+            return (leaves, runs, false);
+        }
+        let next = progress_actions(&sim);
+        if next.is_empty() || prefix.len() >= max_depth || sim.too_big() {
+            leaves += 1;
+            continue;
+        }
+        for a in next.into_iter().rev() {
+            let mut p = prefix.clone();
+            p.push(a);
+            stack.push(p);
+        }
+    }
+    (leaves, runs, true)
 }
